@@ -80,7 +80,25 @@ class Collector(ast.NodeVisitor):
     def visit_Call(self, node):
         if _is_logging(node):
             return
+        if isinstance(node.func, ast.Name) and node.func.id == "Field":
+            return  # option declarations (defaults, help texts): a different default is not a property violation
         self.generic_visit(node)
+
+    # type annotations are not behaviour
+    def visit_arg(self, node):
+        return
+
+    def visit_AnnAssign(self, node):
+        if node.value is not None:
+            self.visit(node.value)
+
+    def visit_FunctionDef(self, node):
+        for d in node.args.defaults + [x for x in node.args.kw_defaults if x is not None]:
+            self.visit(d)
+        for st in node.body:
+            self.visit(st)
+
+    visit_AsyncFunctionDef = visit_FunctionDef
 
     def visit_Compare(self, node):
         if len(node.ops) == 1 and type(node.ops[0]) in CMP_SWAP:
